@@ -207,8 +207,9 @@ def run(ctx):
         return _after_model(ctx, quick, rnd, binary, defect, runs)
     mc = vf.tlc_must_pass(ctx, "MC_Cluster", "MC_Cluster_quick.cfg", timeout=900, workers=WORKERS, heap="6g")
     runs.append(dict(cfg="MC_Cluster_quick", distinct=mc.distinct, generated=mc.generated, depth=mc.depth))
-    mf = vf.tlc_must_pass(ctx, "MC_Cluster", "MC_Cluster_filter.cfg", timeout=900, workers=WORKERS, heap="6g")
-    runs.append(dict(cfg="MC_Cluster_filter", distinct=mf.distinct, generated=mf.generated, depth=mf.depth))
+    for cfg in ("MC_Cluster_dup", "MC_Cluster_filter"):
+        mf = vf.tlc_must_pass(ctx, "MC_Cluster", cfg + ".cfg", timeout=900, workers=WORKERS, heap="6g")
+        runs.append(dict(cfg=cfg, distinct=mf.distinct, generated=mf.generated, depth=mf.depth))
     md = vf.run_tlc(ctx, "MC_Cluster", "MC_Cluster_defect.cfg", timeout=600, workers=WORKERS, heap="4g")
     if md.violated != "PropertyHolds":
         raise vf.Inconclusive("the model with DefectByAddr=TRUE does not exhibit the by-address loss: %s %s" % (md.violated, md.error))
@@ -238,7 +239,7 @@ def _after_model(ctx, quick, rnd, binary, defect, runs):
                      lambda: _gen(ctx, "gen_ref3m.cfg", _consts(defect=defect, depth=2, mixed=False, maxlen=3, dup=True), workers=2)[0]))
     for filt in ((), ("a3",), ("a1", "a2")):
         jobs.append(("sim-filter%d" % len(filt), dict(filt=filt), (lambda filt=filt: _thin(_gen(
-            ctx, "gen_sim%d.cfg" % len(filt), _consts(defect=defect, depth=dep, sim=True, bad=True, dup=True, maxlen=3, filt=filt),
+            ctx, "gen_sim%d.cfg" % len(filt), _consts(defect=defect, depth=dep, sim=True, bad=True, dup=True, maxlen=3, filt=filt, burst=24),
             simulate="num=%d" % (ntr if len(filt) < 2 else ntr // 3), depth=dep + 1, seed=ctx.seed * 7 + len(filt), timeout=900)[0], 2, rnd))))
     if not quick:
         jobs.append(("sim-4x4", dict(nids=4, naddrs=4), lambda: _thin(_gen(
